@@ -53,7 +53,7 @@ chk("C15", "E2", "explicit enumeration of all token sequences up to k tokens x g
     "Reference grammar is a hand transcription of grammar.peg interpreted with pigeon's observable semantics (ordered choice, global errors, lookahead, UTF-8 validity); frozen, updated only with grammar fixes; C20 ties grammar.go to grammar.peg.", "DESIGN.md 5 C15")
 
 chk("C11", "E2", "explicit enumeration of inputs x budgets (every n in 1..N+2 for small N, threshold neighbourhood + geometric sweep otherwise) on the real parser through a read-only step-count accessor added by the generated overlay",
-    "For every input of the bounded set (token sequences, derivations, invalid variants, nested parentheses) and every budget of the sweep: n=0 or n>=N reproduces the unlimited result exactly, 0<n<N yields nil + the max-expressions error, a limited parse runs <= n+1 steps, CreateEvaluator agrees with Parse under the same budget, deep nesting is rejected within the budget (steps, not wall clock).",
+    "For every input of the bounded set (token sequences, derivations, invalid variants, nested parentheses) and every budget of the sweep: n=0 or n>=N reproduces the unlimited result exactly, 0<n<N yields nil + the max-expressions error, a limited parse runs <= n+1 steps, CreateEvaluator agrees with Parse under the same budget, deep nesting is rejected within the budget (steps, not wall clock). Concurrent creations under different budgets: every interleaving of the E3 scenarios at the hooked option / budget plumbing; the free-running -race build of the same bodies is a labelled sampling complement for the parser state the overlay does not hook (reported under C11).",
     "Accessor grammar.VerifParse exists only in the overlay (build tag verif); message text learned from the implementation; bounded inputs.", "DESIGN.md 5 C11")
 
 chk("C16", "E2", "explicit enumeration of all trees up to bounded depth x rendering choices (spellings, literal styles, redundant parentheses, not-not insertions, whitespace styles) and of all short literal strings in every legal quoting; each rendering parsed by the real parser and compared with the printed tree",
